@@ -108,14 +108,20 @@ def spy_class():
     if "cls" not in _spy_cls:
         import openpectus.aggregator.models as Mdl
 
+        import threading
+
+        def serving() -> bool:
+            # pylsp's debounced lint runs on a threading.Timer long after its websocket session: not this request
+            return SPY["on"] and not isinstance(threading.current_thread(), threading.Timer)
+
         class SpyEngineData(Mdl.EngineData):
             def __getattribute__(self, name):
-                if SPY["on"] and name not in _SPY_IGNORED and not name.startswith("__") and name != "_spy_reads":
+                if name not in _SPY_IGNORED and not name.startswith("__") and name != "_spy_reads" and serving():
                     object.__getattribute__(self, "__dict__").setdefault("_spy_reads", []).append(name)
                 return object.__getattribute__(self, name)
 
             def __setattr__(self, name, value):
-                if SPY["on"] and name != "_spy_reads":
+                if name != "_spy_reads" and serving():
                     object.__getattribute__(self, "__dict__").setdefault("_spy_reads", []).append("set:" + name)
                 object.__setattr__(self, name, value)
         _spy_cls["cls"] = SpyEngineData
@@ -618,7 +624,8 @@ def probes_after(truth: Truth, rows: list[dict], user_sets) -> list[dict]:
             continue
         ids = unit_ids if t == "unit" else run_ids if t == "run" else [""] if t in ("unitsWithRecent", "unitsOnline", "runs") else []
         for oid in ids:
-            for u in user_sets:
+            # a unit that is not connected is simply not found by unit routes: one user set is enough there
+            for u in (user_sets[:1] if t == "unit" and oid in truth.offline else user_sets):
                 out.append({"route": i, "path": row["path"], "method": row["method"], "handler": row["handler"],
                             "id": oid, "user": list(u)})
     return out
@@ -674,7 +681,8 @@ ROLE_NAMES = ["A", "a", "B", " ", "", "admin", "Admin", "ADMIN", "administrator"
 
 
 def has_access_cases(ctx: Check) -> list[dict]:
-    small = [list(c) for k in range(3) for c in itertools.combinations(ROLE_NAMES, k)]
+    names = ROLE_NAMES if ctx.tier == "thorough" else ROLE_NAMES[:8] + ["root", "*"]
+    small = [list(c) for k in range(3) for c in itertools.combinations(names, k)]
     cases = [{"kind": "has_access", "required": r, "user": u} for r in small for u in small]
     rng = ctx.rng
     for _ in range(ctx.n(300, 5000)):       # larger sets, duplicates in the required list
@@ -729,7 +737,7 @@ def run(ctx: Check) -> int:
     if ctx.tier == "thorough":      # the same, exhaustively, over four roles
         worlds.append((base_world(("A", "B", "C", "D")), subsets(["A", "B", "C", "D"]), 1.0))
     rng = ctx.rng
-    for _ in range(ctx.n(2, 25)):
+    for _ in range(ctx.n(1, 25)):
         w = random_world(rng)
         us = subsets(w["roles"])
         worlds.append((w, us, 0.5))
@@ -770,8 +778,8 @@ def run(ctx: Check) -> int:
                                lambda c: ["1" if has_access_impl(c) else "0"],
                                nontrivial=lambda c, o: bool(c["required"]))
     if acc_mo:
-        ctx.selftest("has_access", "Access", acc_cases,
-                     lambda c: ["\t".join(["accmut", roles_wire(c["required"]), roles_wire(c["user"])])], acc_mo)
+        ctx.selftest("has_access", "Access", acc_cases[:2500],
+                     lambda c: ["\t".join(["accmut", roles_wire(c["required"]), roles_wire(c["user"])])], acc_mo[:2500])
     for c in acc_cases:
         R, U = set(c["required"]), set(c["user"])
         r = has_access_impl(c)
@@ -788,7 +796,7 @@ def run(ctx: Check) -> int:
     hist_roles = ["A", "B"] if ctx.tier == "quick" else ["A", "B", "C"]
     hists = [c for c in load_corpus("C32") if c.get("kind") == "history"]
     hists += [{"kind": "history", "steps": sc, "roles": hist_roles} for sc in SCENARIOS]
-    for k in range(ctx.n(1, 30)):
+    for k in range(ctx.n(0, 30)):
         hists.append({"kind": "history", "steps": random_history(rng, hist_roles, ctx.n(7, 10), f"h{k}"),
                       "roles": hist_roles})
     engine = Engine(app)
